@@ -337,6 +337,15 @@ func runWorker(exe string, phase int, a, b int64, prog string) (res *workerResul
 	return res, true, at, stderr
 }
 
+// cpuSeconds is the CPU time (user + system) this process has consumed.
+func cpuSeconds() float64 {
+	var ru syscall.Rusage
+	if syscall.Getrusage(syscall.RUSAGE_SELF, &ru) != nil {
+		return 0
+	}
+	return float64(ru.Utime.Sec+ru.Stime.Sec) + float64(ru.Utime.Usec+ru.Stime.Usec)/1e6
+}
+
 func newWorker(ph *Phase) *Worker {
 	return &Worker{Phase: ph.Name, viols: map[string]*report.Viol{}, outcomes: map[uint64]struct{}{}, counters: map[string]int64{}, desc: ph.Describe}
 }
@@ -390,16 +399,20 @@ func workerMain(spec string, phases []Phase) {
 	}
 	progress := (*int64)(unsafe.Pointer(&mem[0]))
 	// watchdog: no progress for hangSeconds => hang
+	// The budget is PROCESS CPU TIME spent on one case, not wall-clock time: a runaway loop
+	// burns CPU whatever else the machine is doing, while a busy machine (other checks, other
+	// users) must not turn a slow case into a "hang". A case that sits for 30 minutes of
+	// wall-clock time without using CPU (blocked for good) is a hang as well.
 	go func() {
-		last, since := int64(-1), time.Now()
+		last, since, cpuSince := int64(-1), time.Now(), cpuSeconds()
 		for {
 			time.Sleep(2 * time.Second)
 			cur := atomic.LoadInt64(progress)
 			if cur != last {
-				last, since = cur, time.Now()
+				last, since, cpuSince = cur, time.Now(), cpuSeconds()
 				continue
 			}
-			if time.Since(since) > time.Duration(hangSeconds)*time.Second {
+			if cpuSeconds()-cpuSince > float64(hangSeconds) || time.Since(since) > 30*time.Minute {
 				buf := make([]byte, 1<<20)
 				n := runtime.Stack(buf, true)
 				fmt.Fprintf(os.Stderr, "VERIF-HANG: case %d made no progress for %ds\n\n%s\n", cur-1, hangSeconds, buf[:n])
